@@ -209,8 +209,11 @@ def run(chk):
     def check_prop(case):
         P, C, kind, v = case
         prop = SP.TimestampProperty(precision=P.lower(), precision_constraint=C.lower())
+        pre = None if isinstance(v, str) else (U.format_datetime(v), getattr(v, 'precision', None), getattr(v, 'precision_constraint', None))
         try: cleaned, _ = prop.clean(v)
         except Exception as ex: return ('property#clean accepts every timestamp value kind', f'TimestampProperty({P},{C}).clean({kind} {v!r}) raised {type(ex).__name__}: {ex}', {})
+        if pre is not None and (U.format_datetime(v), getattr(v, 'precision', None), getattr(v, 'precision_constraint', None)) != pre:
+            return ('frame#the timestamp object handed in is written as before', f'after TimestampProperty({P},{C}).clean the {kind} handed in is written {U.format_datetime(v)!r} with precision settings {getattr(v, "precision", None)}, {getattr(v, "precision_constraint", None)} (was {pre[0]!r} with {pre[1]}, {pre[2]}): a timestamp shared with another object changed how it is written', {})
         text = U.format_datetime(cleaned)
         us = text_to_us(v) if isinstance(v, str) else us_of(v)
         unit = {('SECOND', 'EXACT'): M, ('MILLISECOND', 'EXACT'): 1000}.get((P, C), 1)
